@@ -241,11 +241,19 @@ class DiffXReader(object):
                         line_endings=options.get('line_endings'))
 
                     try:
-                        section['metadata'] = json.loads(content)
+                        metadata = json.loads(content)
                     except ValueError as e:
                         raise DiffXParseError(
                             'JSON metadata could not be parsed: %s' % e,
                             linenum=linenum)
+
+                    if not isinstance(metadata, dict):
+                        raise DiffXParseError(
+                            'JSON metadata must be an object, not %s'
+                            % type(metadata).__name__,
+                            linenum=linenum)
+
+                    section['metadata'] = metadata
                 else:
                     assert section_id == Section.FILE_DIFF
 
